@@ -15,7 +15,9 @@ import (
 func init() { families["c16"] = runC16 }
 
 // Case: a sequence of letters  A B (Refresh valid sync / async config)  E (Refresh invalid, early failure)  L (Refresh invalid, late failure)
-//       D (Destroy)  g (log via tag)  w (write via handle)  t (register a tag)  h (obtain a handle)
+//
+//	D (Destroy)  g (log via tag)  w (write via handle)  t (register a tag)  h (obtain a handle)
+//
 // Observation: one token per operation: ok | err | A | B | console | nowhere | registered | refused | panic(...) | timeout
 // The run starts in the state "never refreshed" only for the first case of a process; every case ends with Destroy.
 func runC16(cases []string, out *bufio.Writer, _ []string) {
@@ -91,8 +93,23 @@ func runC16(cases []string, out *bufio.Writer, _ []string) {
 				stdout := &syncBuffer{}
 				log.Stdout = stdout
 				r := watch(func() {
-					if op == 'g' {
-						log.Errorf(ctx, tag, "%s", id)
+					if op == 'g' { // every level entry point in turn
+						switch n % 7 {
+						case 0:
+							log.Errorf(ctx, tag, "%s", id)
+						case 1:
+							log.Info(ctx, tag, log.Msg(id))
+						case 2:
+							log.Warnf(ctx, tag, "%s", id)
+						case 3:
+							log.Trace(ctx, tag, func() []log.Field { return []log.Field{log.Msg(id)} })
+						case 4:
+							log.Debugf(ctx, tag, "%s", id)
+						case 5:
+							log.Panic(ctx, tag, log.Msg(id))
+						default:
+							log.Fatalf(ctx, tag, "%s", id)
+						}
 					} else if op == 'w' {
 						fmt.Fprintf(h, "%s\n", id)
 					} else if op == 'r' {
